@@ -148,8 +148,17 @@ def run(task):
         _SF.decoder("[Zn][#Zn][=Zr][C][N+1][Fe+2]")
     except ValueError:
         pass
-    _SF.set_semantic_constraints(table if isinstance(table, str) else dict(table))
+    mine = table if isinstance(table, str) else dict(table)
+    _SF.set_semantic_constraints(mine)
+    if isinstance(mine, dict):
+        # the caller goes on using its own dict: the table in force stays the one that was installed
+        for k in list(mine):
+            mine[k] = 0
+        mine["Zn"] = 9
     alpha = _SF.get_semantic_robust_alphabet()
+    if set(alpha) != fresh:
+        r.violation("alphabet-follows-the-callers-dict", case, "the caller changed the dict it had passed to the setter; "
+                    "alphabet now has %r extra and misses %r" % (sorted(set(alpha) - fresh)[:6], sorted(fresh - set(alpha))[:6]))
     A = sorted(alpha)
     atoms = [x for x in A if x[1:-1].lstrip("=#") in t]
     sub = atoms + [x for x in STRUCT if x in alpha]
